@@ -111,7 +111,7 @@ theorem kill_tempRename (o n : Bytes) (fault : Fault) :
 /-- right after the `open(O_TRUNC)` the store path names an empty file -/
 theorem writeFile_passes_empty (o n : Bytes) :
     ∃ fs ∈ trace n none progWriteFile 0 (startRun (initFS o)), afterKill fs = some [] ∧ PostCrash fs (some []) := by
-  refine ⟨{ inodes := [⟨[], false⟩], target := some 0, thist := [some 0], tmps := [], next := 0 }, ?_, ?_, ?_⟩
+  refine ⟨{ inodes := [⟨[], false⟩], target := some 0, thist := [some 0], tmps := [], isLink := false, dest := none }, ?_, ?_, ?_⟩
   · simp [trace, progWriteFile, enabled, faultAt, execOp, execOk, interm, writeBytes, upd, startRun, initFS]
   · simp [afterKill]
   · exact ⟨some 0, by simp, ⟨[], false⟩, by simp, [], rfl, by simp⟩
@@ -119,7 +119,7 @@ theorem writeFile_passes_empty (o n : Bytes) :
 /-- every byte count: after `j` bytes of the write the store path names the first `j` bytes of the new document -/
 theorem writeFile_passes_prefix (o n : Bytes) (j : Nat) (hj : j ≤ n.length) :
     ∃ fs ∈ trace n none progWriteFile 0 (startRun (initFS o)), afterKill fs = some (n.take j) := by
-  refine ⟨{ inodes := [⟨n.take j, false⟩], target := some 0, thist := [some 0], tmps := [], next := 0 }, ?_, ?_⟩
+  refine ⟨{ inodes := [⟨n.take j, false⟩], target := some 0, thist := [some 0], tmps := [], isLink := false, dest := none }, ?_, ?_⟩
   · simp [trace, progWriteFile, enabled, faultAt, execOp, execOk, interm, writeBytes, upd, startRun, initFS]
     exact Or.inr (Or.inl ⟨j, by omega, rfl⟩)
   · simp [afterKill]
